@@ -280,6 +280,12 @@ class Resolver:
                     out.add(("str",))
                 elif k[0] == "bytes":
                     out.add(("int",))
+            if not out and isinstance(e.value, ast.Attribute) and isinstance(e.value.value, ast.Name) and fn is not None and fn.cls is not None \
+                    and e.value.value.id == fn.self_name and any(k[0] in ("list", "tuple") for k in bk):
+                # self.items[i]: an element of a list attribute of the receiver
+                ek = self.attr_elem_kinds(fn.cls, e.value.attr)
+                if ek and UNKNOWN not in ek:
+                    return ek
             return out or {UNKNOWN}
         if isinstance(e, ast.Name):
             return self._name_kinds(e.id, fn, mod)
@@ -438,6 +444,11 @@ class Resolver:
             if isinstance(inner, ast.Call) and isinstance(inner.func, ast.Attribute) and inner.func.attr in ("glob", "rglob", "iterdir") \
                     and any(k == ("path",) for k in self.kinds(inner.func.value, fn)):
                 return {("path",)}
+        # elements of a list attribute of the receiver: what the methods of the class put into it
+        if isinstance(it, ast.Attribute) and isinstance(it.value, ast.Name) and fn is not None and fn.cls is not None and it.value.id == fn.self_name:
+            ek = self.attr_elem_kinds(fn.cls, it.attr)
+            if ek and UNKNOWN not in ek:
+                return ek
         for k in self.kinds(it, fn):
             if k[0] == "inst":
                 m = self.prog.find_method(k[1], "__next__")
@@ -450,6 +461,40 @@ class Resolver:
                     continue
             out.add(UNKNOWN)
         return out or {UNKNOWN}
+
+    def attr_elem_kinds(self, cls, attr):
+        """Kinds of the elements of the list kept in `self.<attr>`: from `self.attr.append(E)`, `self.attr = [E for ..]`,
+        `self.attr = [E, ..]`, `self.attr += [E]` in the class family.  Empty set when nothing is known."""
+        key = ("elem", cls, attr)
+        if key in self._attr_cache:
+            return self._attr_cache[key]
+        self._attr_cache[key] = set()
+        out = set()
+        related = set(self.prog.mro(cls)) | set(self.prog.subclasses(cls))
+        for c in related:
+            for m in c.methods.values():
+                sn = m.self_name
+                if not sn:
+                    continue
+
+                def is_attr(x):
+                    return isinstance(x, ast.Attribute) and x.attr == attr and isinstance(x.value, ast.Name) and x.value.id == sn
+                for n in own_nodes(m.node):
+                    if isinstance(n, ast.Call) and isinstance(n.func, ast.Attribute) and n.func.attr in ("append", "add") and is_attr(n.func.value) and n.args:
+                        out |= self.kinds(n.args[0], m)
+                    elif isinstance(n, ast.Assign) and any(is_attr(t) for t in n.targets) or (isinstance(n, ast.AugAssign) and is_attr(n.target)):
+                        v = n.value
+                        if isinstance(v, (ast.ListComp, ast.GeneratorExp)):
+                            out |= self.kinds(v.elt, m)
+                        elif isinstance(v, (ast.List, ast.Tuple)):
+                            for e in v.elts:
+                                out |= self.kinds(e, m)
+                        elif isinstance(v, ast.Call) and isinstance(v.func, ast.Name) and v.func.id in ("list", "tuple") and not v.args:
+                            pass
+                        else:
+                            out.add(UNKNOWN)
+        self._attr_cache[key] = out
+        return out
 
     # ..................................................................
     def param_kinds(self, fn, name):
